@@ -11,9 +11,11 @@ package main
 import (
 	"bufio"
 	"bytes"
+	"context"
 	"encoding/json"
 	"flag"
 	"fmt"
+	"io"
 	"math/rand"
 	"os"
 	"os/exec"
@@ -892,8 +894,82 @@ func crashRun(repo, planFile string, seed int64, capPerDoc, nbytes int, bulkBin,
 			}
 		}
 	}
+	if err := bulkStreams(w, bulkBin); err != nil {
+		return err
+	}
 	fmt.Printf("events=%d\n", w.N)
 	return w.Close()
+}
+
+// bulkStreams: request streams of every shape (cut short, not JSON, of the wrong type ...): the processor
+// answers, says that it is done and ends; it is given a bounded time and a bounded amount of output
+func bulkStreams(w *tr.Writer, bulkBin string) error {
+	ping := `{"action":"ping","req_id":"p"}`
+	build := `{"action":"build","req_id":"b","payload":{"data":"eyJhIjoxfQ=="}}`
+	streams := map[string]string{
+		"empty": "", "blank": " \n", "open-brace": "{", "open-bracket": "[", "open-string": `"abc`, "cut-key": `{"action`, "cut-value": `{"action":"pi`,
+		"cut-after-colon": `{"action":`, "cut-after-comma": `{"action":"ping",`, "cut-payload": `{"action":"build","payload":{"data":"eyJh`,
+		"complete-then-cut": ping + "\n" + `{"action":"bui`, "build-then-cut": build + "\n" + `{"action":"build","payload":{`,
+		"two-then-cut": ping + ping + `{`, "cut-literal": "nul", "cut-number": "-", "not-json": "this ain't json", "wrong-type": `{"action":5}`,
+		"wrong-type-then-ping": `{"action":5}` + "\n" + ping, "wrong-type-then-cut": `{"action":5}` + `{"action":"pi`, "array": `[1,2,3]`,
+		"number": "12", "trailing-garbage": ping + " x", "null-then-cut": "null\n{", "deep-cut": strings.Repeat(`{"payload":`, 50),
+		"bad-utf8-cut": "{\"action\":\"\xff", "complete": ping + "\n" + build + "\n",
+	}
+	names := make([]string, 0, len(streams))
+	for n := range streams {
+		names = append(names, n)
+	}
+	sort.Strings(names)
+	for _, n := range names {
+		o, msg := runStream(bulkBin, []byte(streams[n]))
+		if o == "skipped" {
+			return fmt.Errorf("bulk process could not be run: %s", msg)
+		}
+		w.Emit(crashEvent{K: "bulk", Src: "stream", Mut: n, Steps: []crashStep{{Op: "bulk-stream", Out: o, Msg: msg}}})
+	}
+	return nil
+}
+
+func runStream(bulkBin string, in []byte) (string, string) {
+	ctx, cancel := context.WithTimeout(context.Background(), 20*time.Second)
+	defer cancel()
+	cmd := exec.CommandContext(ctx, bulkBin)
+	cmd.Stdin = bytes.NewReader(in)
+	var stderr bytes.Buffer
+	cmd.Stderr = &stderr
+	pipe, err := cmd.StdoutPipe()
+	if err != nil {
+		return "skipped", err.Error()
+	}
+	if err := cmd.Start(); err != nil {
+		return "skipped", err.Error()
+	}
+	const limit = 8 << 20
+	outB, _ := io.ReadAll(io.LimitReader(pipe, limit))
+	if len(outB) >= limit {
+		cmd.Process.Kill()
+		cmd.Wait()
+		return "hang", fmt.Sprintf("more than %d bytes of responses for %d bytes of requests", limit, len(in))
+	}
+	cmd.Wait()
+	if ctx.Err() != nil {
+		return "hang", "still running after 20s"
+	}
+	se := stderr.String()
+	if p := strings.Index(se, "panic:"); p >= 0 {
+		return "panic", siteFromStack(se[p:])
+	}
+	if strings.Contains(se, "fatal error:") {
+		return "no-response", "fatal error"
+	}
+	lines := bytes.Split(bytes.TrimSpace(outB), []byte("\n"))
+	var last struct {
+		IsFinal bool `json:"is_final"`
+	}
+	if len(lines) == 0 || json.Unmarshal(lines[len(lines)-1], &last) != nil || !last.IsFinal {
+		return "no-response", "the stream of responses does not end with the final marker"
+	}
+	return "ok", ""
 }
 
 func init() {
